@@ -266,7 +266,18 @@ def proof_status(prop: str, buildinfo: dict) -> dict:
     od.mkdir(exist_ok=True)
     rc, out = _run(["timeout", "900", "coqc"] + coq_flags() + ["-o", str(od / f"{prop}.vo"), rel], cwd=COQ)
     if rc != 0:
-        st["log"] = out[-3000:]
+        # name the theorem that no longer checks: the last `Theorem` at or before the line coqc reports
+        m = re.search(r'File "[^"]*", line (\d+), characters[^\n]*\n((?:.*\n?){0,14})', out)
+        if m:
+            line = int(m.group(1))
+            before = [(i + 1, re.match(r"\s*(?:Theorem|Corollary)\s+([A-Za-z0-9_']+)", l)) for i, l in enumerate(src.splitlines())]
+            names = [mm.group(1) for i, mm in before if mm and i <= line]
+            st["failed_theorem"] = names[-1] if names else None
+            msg = " ".join(m.group(2).split())[:600]
+            st["log"] = (f"theorem {st['failed_theorem']} ({st['file']} line {line}) no longer checks: {msg}" if names
+                         else f"{st['file']} line {line} (before the first theorem: a Require or a definition) no longer checks: {msg}")
+        else:
+            st["log"] = out[-3000:]
         return st
     # Print Assumptions blocks
     blocks = re.split(r"(?m)^(?=Closed under the global context|Axioms:)", out)
